@@ -33,6 +33,10 @@ CHECKS = {
         technique='property-based testing with edit histories: generated configuration x copy operation x edits on the copy; round-trip (canonical form) and identity-disjointness oracle, frame condition on the original after every edit',
         text='For each generated DAG (all Buildable types, positional/*args/keyword arguments, tags, shared containers, explicit mutable defaults) and each of 8 copy operations, the copy must be canonically equal (tags, sharing), deep copies must share no Buildable / argument dict / container / tag set / history list with the original, shallow copies must have fresh top-level state with identical argument values, and 1-8 generated edits of the copy (arguments, tags, TaggedValue assignment, in-place container mutation for deep copies) must leave the original\'s canonical form with history and its build unchanged.',
         note='Trusted: harness/canon.py, mutable_objects() enumeration in props/c07.py.'),
+    'C08': dict(
+        technique='property-based testing: generated nested structures with aliasing, independent reference walk as oracle for path soundness/completeness, canonical-form round trip for identity traversals, small history scenarios for registries',
+        text='Generated structures (lists, tuples, dicts, defaultdicts, named tuples, Buildables with positional/*args/keyword arguments, tuples of literals, Box nodes with flatten temporaries, aliasing) are walked by an independent reference; iterate (memoized/un-memoized/memoize_internables=False), follow_path, collect_paths_by_id (daglish + legacy), State.get_all_paths and five identity rebuilds are compared with it; cyclic inputs must raise ValueError; a node type registered after a fallback registry already looked it up must be traversed afterwards.',
+        note='Trusted: reference walk in harness/canon.py + props/c08.py; legacy traversals judged only on the container types they document.'),
 }
 
 PENDING = {}
